@@ -1,2 +1,8 @@
 import LyModel.Props.C02
-#print axioms LyModel.Props.C02.placeholder
+#print axioms LyModel.Props.C02.minmax_correct
+#print axioms LyModel.Props.C02.minmax_break_before_min
+#print axioms LyModel.Props.C02.unique_hash_eq_pairwise
+#print axioms LyModel.Props.C02.unique_hash_independent
+#print axioms LyModel.Props.C02.dup_hash_eq_scan
+#print axioms LyModel.Props.C02.cases_correct
+#print axioms LyModel.Props.C02.cases_fresh
